@@ -196,6 +196,24 @@ func appendNote(r *evid.Run, key, note string) {
 }
 
 func reportChoiceViolation(r *evid.Run, name string, scen choice.Scenario, newLocal func() any, v choice.Violation) {
+	// a panic of the library that was observed (stack and input recorded) stays a violation even if the same input alone
+	// does not panic again: the panic then depends on what earlier calls in this process left behind. Everything else
+	// must reproduce.
+	panicsObserved := func() bool {
+		n := 0
+		for _, f := range v.Fails {
+			if strings.Contains(f.Sig, ":panic:") || strings.Contains(f.Sig, ":panic-after:") || strings.Contains(f.Sig, ":library-panic:") {
+				n++
+			}
+		}
+		if n == 0 || n != len(v.Fails) {
+			return false
+		}
+		for _, f := range v.Fails {
+			r.Violation(evid.Replay{Scenario: name, Kind: "choice", Vector: v.Choices, Sig: f.Sig, Detail: f.Detail + "\n(observed once during the exploration; re-executing this input alone does not reproduce it: the panic depends on state left behind by earlier calls in the same process)"})
+		}
+		return true
+	}
 	// re-execute 5x: must reproduce identically
 	var sigs []string
 	var labels string
@@ -217,7 +235,9 @@ func reportChoiceViolation(r *evid.Run, name string, scen choice.Scenario, newLo
 	}
 	for i := 1; i < 5; i++ {
 		if sigs[i] != sigs[0] {
-			r.HarnessError(fmt.Sprintf("scenario %s vector %v does not reproduce deterministically: %q vs %q", name, v.Choices, sigs[0], sigs[i]))
+			if !panicsObserved() {
+				r.HarnessError(fmt.Sprintf("scenario %s vector %v does not reproduce deterministically: %q vs %q", name, v.Choices, sigs[0], sigs[i]))
+			}
 			return
 		}
 	}
@@ -227,7 +247,9 @@ func reportChoiceViolation(r *evid.Run, name string, scen choice.Scenario, newLo
 	}
 	sort.Strings(orig)
 	if strings.Join(orig, "|") != sigs[0] {
-		r.HarnessError(fmt.Sprintf("scenario %s vector %v: replay differs from exploration: %q vs %q", name, v.Choices, strings.Join(orig, "|"), sigs[0]))
+		if !panicsObserved() {
+			r.HarnessError(fmt.Sprintf("scenario %s vector %v: replay differs from exploration: %q vs %q", name, v.Choices, strings.Join(orig, "|"), sigs[0]))
+		}
 		return
 	}
 	for _, f := range traced {
